@@ -103,7 +103,63 @@ pub fn gen_cases(cfg: &RunCfg) -> Vec<Case> {
         }
     }
     cases.extend(distance_family());
+    cases.extend(layout_family());
     cases
+}
+
+/// Layouts that decide how the excerpt of `contextualize` is cut: every line indented (END too), blank and
+/// white-space-only lines before the malformed definition, the malformed definition as the last one, a definition
+/// whose failing line lies more than 300 bytes behind its first token, comment lines between, LF and CRLF.
+fn layout_family() -> Vec<Case> {
+    let mut out = Vec::new();
+    let mut k = 0usize;
+    for crlf in [false, true] {
+        for indent in ["", "  ", "\t"] {
+            for end_indent in ["", "  "] {
+                for blanks in [0usize, 1, 3] {
+                    for members in [1usize, 3, 12] {
+                        for last in [false, true] {
+                            let mut text = String::from("Layout-Mod DEFINITIONS AUTOMATIC TAGS ::= BEGIN\n");
+                            text.push_str(&format!("{indent}First ::= INTEGER\n"));
+                            for b in 0..blanks {
+                                text.push_str(if b % 2 == 0 { "\n" } else { "   \n" });
+                            }
+                            if k % 3 == 0 {
+                                text.push_str(&format!("{indent}-- a remark before the definition\n"));
+                            }
+                            let lower = text.len() + indent.len();
+                            text.push_str(&format!("{indent}Bad ::= SEQUENCE {{\n"));
+                            let bad_line = members - 1;
+                            let mut upper = 0;
+                            for m in 0..members {
+                                text.push_str(&format!("{indent}    member-number-{m:02} "));
+                                if m == bad_line {
+                                    upper = text.len();
+                                    text.push('§');
+                                }
+                                text.push_str("INTEGER (0..281474976710655) DEFAULT 5");
+                                text.push_str(if m + 1 < members { ",\n" } else { "\n" });
+                            }
+                            text.push_str(&format!("{indent}}}\n"));
+                            if !last {
+                                text.push_str(&format!("{indent}After ::= BOOLEAN\n"));
+                            }
+                            text.push_str(&format!("{end_indent}END\n"));
+                            let (text, lower, upper) = if crlf {
+                                let conv = |pos: usize| pos + text[..pos].matches('\n').count();
+                                (text.replace('\n', "\r\n"), conv(lower), conv(upper))
+                            } else {
+                                (text, lower, upper)
+                            };
+                            out.push(Case { text, lower, upper: Some(upper), what: format!("layout: indent {:?}, END indent {:?}, {blanks} blank lines before, {members} members, last definition {last}", indent, end_indent), as_file: k % 5 == 0 });
+                            k += 1;
+                        }
+                    }
+                }
+            }
+        }
+    }
+    out
 }
 
 /// How far the failing line lies from the place the error context starts is varied systematically: 0..24 well-formed
@@ -164,10 +220,42 @@ fn distance_family() -> Vec<Case> {
 struct Obs {
     offset: usize,
     line: usize,
+    ctx_off: usize,
+    ctx_line: usize,
+    excerpt: Vec<(usize, String, bool)>,
     display_line: Option<usize>,
     marked_line: Option<usize>,
     display_path: bool,
     ctx_path: bool,
+}
+
+const MARK: &str = " ◀▪▪▪▪▪▪▪▪▪▪ FAILED AT THIS LINE";
+
+/// the entries of a rendering of `contextualize`: (label, text, marked) of every line ` <digits> │  <text>[MARK]`
+pub fn parse_excerpt(rendered: &str) -> Vec<(usize, String, bool)> {
+    let mut out = Vec::new();
+    for l in rendered.split('\n') {
+        let Some(rest) = l.strip_prefix(' ') else { continue };
+        let digits: String = rest.chars().take_while(|c| c.is_ascii_digit()).collect();
+        if digits.is_empty() {
+            continue;
+        }
+        let Some(text) = rest[digits.len()..].strip_prefix(" │  ") else { continue };
+        let (text, marked) = match text.strip_suffix(MARK) {
+            Some(t) => (t, true),
+            None => (text, false),
+        };
+        out.push((digits.parse().unwrap_or(0), text.to_string(), marked));
+    }
+    out
+}
+
+fn sx_excerpt(es: &[(usize, String, bool)]) -> String {
+    sx_list(es.iter().map(|(l, t, m)| format!("( {l} {} {} )", hex(t), sx_bool(*m))))
+}
+
+fn show_excerpt(es: &[(usize, String, bool)]) -> String {
+    es.iter().map(|(l, t, m)| format!("({l} {} {})", hex(t), sx_bool(*m))).collect::<Vec<_>>().join(" ")
 }
 
 fn first_number_after(s: &str, key: &str) -> Option<usize> {
@@ -212,6 +300,9 @@ fn observe(c: &Case, path: &std::path::Path) -> Result<Option<Obs>, String> {
                         Ok(Some(Obs {
                             offset: rd.offset,
                             line: rd.line,
+                            ctx_off: rd.context_start_offset,
+                            ctx_line: rd.context_start_line,
+                            excerpt: parse_excerpt(&ctx),
                             display_line,
                             marked_line,
                             display_path: display.contains(&pstr) && as_file,
@@ -250,6 +341,7 @@ pub fn run(cfg: &RunCfg) -> Report {
         gen_cases(cfg)
     };
     let mut reqs = Vec::new();
+    let mut ctx_reqs = Vec::new();
     let mut meta = Vec::new();
     for (i, c) in cases.iter().enumerate() {
         rep.evaluations += 1;
@@ -272,6 +364,7 @@ pub fn run(cfg: &RunCfg) -> Report {
                     sx_bool(o.display_path),
                     sx_bool(o.ctx_path)
                 ));
+                ctx_reqs.push(format!("c17ctx {} {} {} {} {} {}", hex(&c.text), o.ctx_off, o.ctx_line, o.offset, o.line, sx_excerpt(&o.excerpt)));
                 meta.push((i, o));
             }
             Err(e) if e.starts_with("panic") => {
@@ -301,11 +394,125 @@ pub fn run(cfg: &RunCfg) -> Report {
         }
         Err(e) => rep.harness_errors.push(e),
     }
+    // the excerpt of contextualize on the real reports: Lean model (correspondence) and Lean spec (verdict)
+    match run_driver(&ctx_reqs) {
+        Ok(ans) => {
+            for (k, a) in ans.iter().enumerate() {
+                let (i, o) = &meta[k];
+                let c = &cases[*i];
+                let parts: Vec<&str> = a.split(" | ").collect();
+                if parts.len() != 3 {
+                    rep.harness_errors.push(format!("driver answer `{a}`"));
+                    continue;
+                }
+                let agrees = parts[0] == show_excerpt(&o.excerpt);
+                let case = json!({"text": c.text, "lower": c.lower, "upper": c.upper, "as_file": c.as_file, "what": c.what, "offset": o.offset, "line": o.line,
+                    "context_start_offset": o.ctx_off, "context_start_line": o.ctx_line});
+                if !agrees {
+                    rep.disagree(json!({"excerpt_of": case.clone(), "model": parts[0], "impl": show_excerpt(&o.excerpt)}));
+                }
+                rep.count(&format!("excerpt:{}", parts[2]));
+                if let Some(msg) = parts[1].strip_prefix("bad:") {
+                    rep.unsat("", agrees, json!({"why": format!("excerpt: {msg}"), "case": case}));
+                }
+            }
+        }
+        Err(e) => rep.harness_errors.push(e),
+    }
     // function-level correspondence: Input::slice via the hook vs the Lean model
     if cfg.replay.is_none() {
         slice_correspondence(cfg, &mut rep);
+        context_correspondence(cfg, &mut rep);
     }
     rep
+}
+
+/// Function-level correspondence for `LexerError::contextualize` (public API, no hook): synthetic reports over
+/// texts built from indented / unindented / blank / white-space-only / long / multi-byte lines, LF and CRLF.
+/// The Lean model renders the same excerpt; the Lean spec judges the implementation's excerpt whenever the
+/// report is consistent (context start and offset carry their true line numbers).
+fn context_correspondence(cfg: &RunCfg, rep: &mut Report) {
+    let mut rng = Rng::new(cfg.seed ^ 0xC0817);
+    let n = cfg.budget(3000, 60000);
+    let pieces = [
+        "A ::= INTEGER", "  b BOOLEAN,", "}", "    ", "", "\t", "-- remark", "  -- indented remark", "Ünï ::= NULL", "  é 中 😀,", "END", "  END",
+        "x", " x", "0", "B ::= SEQUENCE {", "  c INTEGER (0..255) DEFAULT 5,", "9z", "_a", "é", "  ",
+    ];
+    let long = "  member-with-a-very-long-name-that-goes-on-and-on INTEGER (0..281474976710655) DEFAULT 281474976710655,";
+    let mut reqs = Vec::new();
+    let mut impls = Vec::new();
+    let mut descr = Vec::new();
+    for it in 0..n {
+        let crlf = it % 5 == 4;
+        let n_lines = 1 + rng.below(if it % 7 == 0 { 14 } else { 7 });
+        let mut src = String::new();
+        for li in 0..n_lines {
+            if it % 7 == 0 && rng.chance(1, 3) {
+                src.push_str(long);
+            } else {
+                src.push_str(*rng.pick(&pieces));
+            }
+            if li + 1 < n_lines || rng.chance(1, 2) {
+                src.push_str(if crlf { "\r\n" } else { "\n" });
+            }
+        }
+        let bounds: Vec<usize> = (0..=src.len()).filter(|i| src.is_char_boundary(*i)).collect();
+        let ctx_off = *rng.pick(&bounds);
+        let later: Vec<usize> = bounds.iter().cloned().filter(|b| *b >= ctx_off).collect();
+        let off = *rng.pick(&later);
+        let nl = |p: usize| src[..p].matches('\n').count();
+        // mostly consistent reports; sometimes arbitrary line numbers (correspondence only)
+        let (ctx_line, line) = if rng.chance(1, 8) { (rng.below(1200), rng.below(1200)) } else { (1 + nl(ctx_off), 1 + nl(off)) };
+        let err = LexerError {
+            kind: LexerErrorType::MatchingError(ReportData {
+                src_file: if it % 3 == 0 { Some("dir/file.asn".into()) } else { None },
+                context_start_line: ctx_line,
+                context_start_offset: ctx_off,
+                line,
+                offset: off,
+                column: 1 + rng.below(9),
+                reason: "synthetic".into(),
+                unexpected_eof: false,
+            }),
+        };
+        let src2 = src.clone();
+        let rendered = catch_unwind(AssertUnwindSafe(move || err.contextualize(&src2)));
+        rep.evaluations += 1;
+        match rendered {
+            Ok(r) => {
+                let es = parse_excerpt(&r);
+                reqs.push(format!("c17ctx {} {ctx_off} {ctx_line} {off} {line} {}", hex(&src), sx_excerpt(&es)));
+                impls.push(show_excerpt(&es));
+                descr.push(json!({"contextualize_src": src, "context_start_offset": ctx_off, "context_start_line": ctx_line, "offset": off, "line": line}));
+            }
+            Err(p) => {
+                rep.count("panic-in-contextualize");
+                rep.unsat("", false, json!({"why": format!("contextualize panics: {}", panic_msg(p)), "case": {"contextualize_src": src, "context_start_offset": ctx_off, "context_start_line": ctx_line, "offset": off, "line": line}}));
+            }
+        }
+    }
+    match run_driver(&reqs) {
+        Ok(ans) => {
+            for (k, a) in ans.iter().enumerate() {
+                let parts: Vec<&str> = a.split(" | ").collect();
+                if parts.len() != 3 {
+                    rep.harness_errors.push(format!("driver answer `{a}`"));
+                    continue;
+                }
+                let agrees = parts[0] == impls[k];
+                if !agrees {
+                    rep.disagree(json!({"case": descr[k].clone(), "model": parts[0], "impl": impls[k]}));
+                }
+                rep.count(&format!("excerpt-fn:{}", parts[2]));
+                if parts[2] != "outside-dom" {
+                    if let Some(msg) = parts[1].strip_prefix("bad:") {
+                        rep.unsat("", agrees, json!({"why": format!("excerpt: {msg}"), "case": descr[k].clone()}));
+                    }
+                }
+            }
+        }
+        Err(e) => rep.harness_errors.push(e),
+    }
 }
 
 fn slice_correspondence(cfg: &RunCfg, rep: &mut Report) {
